@@ -443,7 +443,9 @@ func execJSON(body string) string {
 }
 
 // execDirect: DIRECT xModel <params Fs> hasInputs [nIn T F…]
-//   → initpanic <class> | initok | ok nOut T F… <states Fs> | runpanic <class>       (process death → "panic <class>")
+//
+//	→ initpanic <class> | initok | ok nOut T F… <states Fs> | runpanic <class>       (process death → "panic <class>")
+//
 // The direct one-cell run through the public Go API, the way RunOn (modelrun.go) does it, minus dimensions (the JSON
 // request has no way to give table parameters): ApplyParameters(nParams×1), InitialiseStates(1), Run(1×nIn×T).
 func execDirect(t *tokenReader) string {
@@ -637,6 +639,18 @@ func (pl *jsonPlan) directBody() string {
 
 var directCache = map[string]string{}
 
+var scopeSeen = map[string]int{}
+
+// jsonFail records an oracle failure, at most 25 per scope in the list (all are counted in the histogram).
+func jsonFail(c *Ctx, id int, scope, what, op string) {
+	if scopeSeen[scope]++; scopeSeen[scope] > 25 {
+		c.Stats.Count("oracle_fail:" + scope)
+		c.Stats.Count("oracle_fail_not_listed:" + scope)
+		return
+	}
+	c.OracleFail(id, scope, what, op)
+}
+
 func (c *Ctx) direct(pl *jsonPlan) string {
 	key := pl.directBody()
 	if r, ok := directCache[key]; ok {
@@ -724,10 +738,10 @@ func (c *Ctx) modelPart(pl *jsonPlan) string {
 // JSON: oracle on the implementation
 
 type jsonOutcome struct {
-	died    string // class, when the process died
-	raw     bool   // output is not a sequence of JSON documents
-	docs    []*jnode
-	ending  string // returned | panicked <class>
+	died   string // class, when the process died
+	raw    bool   // output is not a sequence of JSON documents
+	docs   []*jnode
+	ending string // returned | panicked <class>
 }
 
 func parseOutcome(impl string) *jsonOutcome {
@@ -831,7 +845,9 @@ func oracleJSON(c *Ctx, id int, body, impl string) {
 			op = first + " x" + hex.EncodeToString(raw)
 			what += " [line too long for the replay record: short form recorded, the model side of a replay will not parse it]"
 		}
-		c.OracleFail(id, scope, what, op)
+		// the failure list of a run is bounded (main.go keeps 200): never let one mechanism (e.g. a known finding that
+		// fires on every request naming a certain model) crowd out the others
+		jsonFail(c, id, scope, what, op)
 	}
 
 	if pl.decodeErr != "" || pl.desc == nil {
@@ -1537,10 +1553,10 @@ func runBinary(c *Ctx, exe string, id int, raw []byte, body, impl string, pl *js
 	}
 	switch {
 	case status != 0:
-		c.OracleFail(id, scope, fmt.Sprintf("ow-single exits with status %d; stdout holds %s", status, trunc(strings.SplitN(toks, " ", 2)[0]+" document(s)", 40)), body)
+		jsonFail(c, id, scope, fmt.Sprintf("ow-single exits with status %d; stdout holds %s", status, trunc(strings.SplitN(toks, " ", 2)[0]+" document(s)", 40)), body)
 	case strings.HasPrefix(toks, "raw") || !strings.HasPrefix(toks, "1 "):
-		c.OracleFail(id, scope, "ow-single: stdout is not exactly one JSON document: "+trunc(toks, 60), body)
+		jsonFail(c, id, scope, "ow-single: stdout is not exactly one JSON document: "+trunc(toks, 60), body)
 	case "w "+toks+" end returned" != impl:
-		c.OracleFail(id, "JSON:ow-single-differs", "ow-single wrote another document than RunSingleModelJSON(…, true) in process", body)
+		jsonFail(c, id, "JSON:ow-single-differs", "ow-single wrote another document than RunSingleModelJSON(…, true) in process", body)
 	}
 }
